@@ -46,8 +46,8 @@ def run(ctx, res):
     res.count("kernel axiom sites", sum(len(r.kernel_sites) for r in cf.results.values()))
     res.count("carrier reads", sum(r.carrier_reads for r in cf.results.values()))
     res.extra["guards_used"] = sorted({g for r in cf.results.values() for g in r.guards})
-    ctx.require(res, "R12.1", total, 100, "return sites")
-    ctx.require(res, "R12.1f", live, 25, "live functions")
+    ctx.require(res, "R12.1", total, 60, "return sites")
+    ctx.require(res, "R12.1f", live, 15, "live functions")
     # a fourth numeric construction would have conf {} and be reported where it is returned; list them
     for r in cf.results.values():
         for e in r.numeric_sites:
